@@ -63,7 +63,7 @@ Qed.
 
 Lemma fscope_keep W sc e E E' : fscope fl W e E -> keep fl sc E E' -> fscope fl W e E'.
 Proof.
-  intros Hfs Hk f K Hin HK. destruct (Hfs f K Hin HK) as (c & p & d & A & B & C). exists c, p, d. split; [exact A | split; [|exact C]].
+  intros Hfs Hk f K Hin HK. destruct (Hfs f K Hin HK) as (c & p & A & B & C). exists c, p. split; [exact A | split; [|exact C]].
   rewrite (Hk f); [exact B|]. right. unfold fnames. apply in_map_iff. eexists. split; [|exact Hin]. reflexivity.
 Qed.
 
@@ -352,16 +352,19 @@ Proof.
     cbn [frag_fexpr] in Hf.
     destruct (fun_kind fl var) as [Kf|] eqn:Hfk; [|discriminate Hf]. destruct Kf; [discriminate Hf|]. inversion Hf; subst. clear Hf.
     apply fun_kind_in in Hfk.
-    destruct (r_fund _ _ _ _ _ _ _ _ _ _ _ var _ Hrel Hfk ltac:(discriminate)) as (cf & pf & d & Hlkf & Hnthf & Hpf & Hcellf & Hd & Hdk).
+    destruct (r_fund _ _ _ _ _ _ _ _ _ _ _ var _ Hrel Hfk ltac:(discriminate)) as (cf & pf & d & Hlkf & Hnthf & Hpf & Hcellf & Hdk & Hreld).
     assert (Hvarb : var < bound).
     { destruct (r_flb _ _ _ _ _ _ _ _ _ _ _ Hrel var); [|assumption]. unfold fnames. apply in_map_iff. eexists. split; [|exact Hfk]. reflexivity. }
     destruct g as [|g]; [discriminate Hlow|].
     cbn [expression] in Hlow. mon Hlow. fresh_all. inj_code.
     cbn [SyltSem.eval] in Hev. rewrite Hlkf in Hev. unfold SyltSem.read_cell in Hev. rewrite Hnthf in Hev. inversion Hev; subst r st1. clear Hev.
-    destruct (step_copy_fun pv sv bound u fl W sc e st F c (c + 1) E stL l c var pf (fd_fid d) Hrel Hctx ltac:(lia) Hcva Hvarb Hpf Hcellf) as (E1 & stL1 & F1 & Hok1 & Hdf).
+    (* the closure the name holds now joins the world *)
+    destruct (step_copy_fun pv sv bound u fl (world_addD W d) sc e st F c (c + 1) E stL l c var pf (fd_fid d) Hreld Hctx ltac:(lia) Hcva Hvarb Hpf Hcellf) as (E1 & stL1 & F1 & Hok1 & Hdf).
     eexists _, _. split; [apply cshape_plain; [lia | reflexivity | reflexivity | apply used_plain]|].
     split; [lia|]. split; [lia|].
-    exists W, E1, stL1, F1. split; [apply wsub_refl|]. split; [exact Hok1|]. split; [apply Hok1|]. cbn [adenotes]. exists d. auto.
+    exists (world_addD W d), E1, stL1, F1. split; [apply wsub_addD|].
+    split; [eapply okstep_down; [exact Hok1 | apply wsub_addD | apply (rel_fscope _ _ _ _ _ _ Hrel)]|]. split; [apply Hok1|].
+    cbn [adenotes]. exists d. split; [right; reflexivity | auto].
   - (* a call that returns a function *)
     destruct (callee_fkind k0 sc a args sp K Hf) as (kc & ks & Hfc & Hfa).
     exact (call_sim W n IH IHF IHap g k0 kc a args sp ctx c code_a va c1 e st r st1 sc l E stL F ks K Hev Hlow Hfc Hfa Hu Hctx Hrel Hint).
